@@ -203,21 +203,29 @@ def fullRep (flags : Nat) (h : Hdr) : Hdr :=
     (if h.lps = 0 ∧ h.len > h.lpe then { h with flg := setf h.flg XMP_SAMPLE_LOOP_FULL } else h)
   else h
 
-/-- The read into `dest`: `some (dest[0..bytelen), consumed)` or `none` for `goto err2`. -/
-def readDest (flags : Nat) (bytelen : Nat) (f : Bytes) (buffer : Bytes) : Option (Bytes × Nat) :=
+/-- The read into `dest`: `some (dest[0..bytelen), consumed)` or `none` for `goto err2`.
+    `f` are the bytes `hio_size` promises from the current position on; `limit` is the number of bytes
+    the back-end's read function really delivers before it comes back short (a failing callback / an
+    I/O error; `limit ≥ f.length`: every promised byte arrives).  `hio_read(p, 1, n, f)` then stores
+    and returns `min n (what is left of limit)` bytes. -/
+def readDestS (flags : Nat) (bytelen : Nat) (f : Bytes) (limit : Nat) (buffer : Bytes) : Option (Bytes × Nat) :=
   if fl flags SAMPLE_FLAG_NOLOAD then
     some (buffer.take bytelen, 0)                       -- memcpy(dest, buffer, bytelen)
   else if fl flags SAMPLE_FLAG_ADPCM then
     let x2 := (bytelen + 1) >>> 1
-    let table := f.take 16
+    let table := f.take (min 16 limit)                   -- hio_read(table, 1, 16, f)
     if table.length ≠ 16 then none
     else
-      let inp := (f.drop 16).take x2
+      let inp := (f.drop 16).take (min x2 (limit - 16))  -- hio_read(dest + x2, 1, x2, f)
       if inp.length ≠ x2 then none
       else some ((adpcm4 ((bytelen + 1) / 2) 0 table inp).take bytelen, 16 + x2)
   else
-    let got := f.take bytelen                            -- x = hio_read(dest, 1, bytelen, f)
+    let got := f.take (min bytelen limit)                -- x = hio_read(dest, 1, bytelen, f)
     some (got ++ List.replicate (bytelen - got.length) 0, got.length)   -- memset(dest + x, 0, bytelen - x)
+
+/-- the read on a stream that delivers everything it promised -/
+def readDest (flags : Nat) (bytelen : Nat) (f : Bytes) (buffer : Bytes) : Option (Bytes × Nat) :=
+  readDestS flags bytelen f f.length buffer
 
 /-- `for (i = 0; i < extralen; i++) data[bytelen + i] = data[bytelen - framelen + i];`
     on the allocation list (`a.length = 4 + bytelen + i`). -/
@@ -238,14 +246,15 @@ def frameLen (is16 stereo : Bool) : Nat := (if is16 then 2 else 1) * (if stereo 
 /-- The part of `libxmp_load_sample` after the truncation block: loop sanity, allocation, read,
     conversions, interleave, full-repeat flag, guard fill.  `bytelen`/`len` are the values the
     truncation block left; `is16`/`stereo`/`framelen` were computed from `xxs->flg` before. -/
-def loadCore (flags : Nat) (h : Hdr) (is16 stereo : Bool) (bytelen : Nat) (len : Int) (f : Bytes) (buffer : Bytes) :
+def loadCoreS (flags : Nat) (h : Hdr) (is16 stereo : Bool) (bytelen : Nat) (len : Int) (f : Bytes) (limit : Nat)
+    (buffer : Bytes) :
     Result :=
   let framelen := frameLen is16 stereo
   let channels := if stereo then 2 else 1
   let extralen := 4 * framelen
   let h := loopSanity { h with len := len }
   let planar := stereo && !fl flags SAMPLE_FLAG_INTERLEAVED
-  match readDest flags bytelen f buffer with
+  match readDestS flags bytelen f limit buffer with
   | none => .error
   | some (dest, consumed) =>
     let n := h.len.toNat
@@ -257,11 +266,15 @@ def loadCore (flags : Nat) (h : Hdr) (is16 stereo : Bool) (bytelen : Nat) (len :
     let a := guardStart framelen a
     .ok h a consumed
 
+def loadCore (flags : Nat) (h : Hdr) (is16 stereo : Bool) (bytelen : Nat) (len : Int) (f : Bytes) (buffer : Bytes) :
+    Result := loadCoreS flags h is16 stereo bytelen len f f.length buffer
+
 /-- `libxmp_load_sample(m, f, flags, xxs, buffer)`.
     `skip` = `m && (m->smpctl & XMP_SMPCTL_SKIP)`; `f` = the bytes from the handle's current
     position to its end (`none`: NULL handle); `buffer` is only used with `SAMPLE_FLAG_NOLOAD`
-    and must then hold at least `len * framelen` bytes (caller's obligation). -/
-def load (flags : Nat) (h : Hdr) (skip : Bool) (f : Option Bytes) (buffer : Bytes) : Result :=
+    and must then hold at least `len * framelen` bytes (caller's obligation); `limit`: see `readDestS`
+    (a read that comes back short although the size check passed). -/
+def loadS (flags : Nat) (h : Hdr) (skip : Bool) (f : Option Bytes) (limit : Nat) (buffer : Bytes) : Result :=
   if fl flags SAMPLE_FLAG_ADLIB then .skipped h 0
   else if h.len ≤ 0 then .skipped h 0
   else if h.len > MAX_SAMPLE_SIZE ∨ skip then
@@ -282,7 +295,12 @@ def load (flags : Nat) (h : Hdr) (skip : Bool) (f : Option Bytes) (buffer : Byte
         | some av => truncBlock flags is16 stereo framelen bytelen h.len av.length
     match tr with
     | none => .skipped h 0
-    | some (bytelen, len) => loadCore flags h is16 stereo bytelen len (f.getD []) buffer
+    | some (bytelen, len) => loadCoreS flags h is16 stereo bytelen len (f.getD []) limit buffer
+
+/-- `libxmp_load_sample` on a stream that delivers every byte `hio_size` promised (memory and regular
+    file handles) -/
+def load (flags : Nat) (h : Hdr) (skip : Bool) (f : Option Bytes) (buffer : Bytes) : Result :=
+  loadS flags h skip f (f.getD []).length buffer
 
 /-- Every buffer access of the C function as `(buffer, lo, hi)` half-open byte ranges relative to
     the start of the buffer's allocation (`0` = `xxs->data - 4`, `1` = `tmp`), expressed in the
@@ -466,6 +484,43 @@ def load (flags : Nat) (h : Hdr) (skip : Bool) (f : Option Bytes) (buffer : Byte
     let h2 := if fl flags SAMPLE_FLAG_FULLREP ∧ h1.lps = 0 ∧ h1.len > h1.lpe
               then { h1 with flg := setf h1.flg XMP_SAMPLE_LOOP_FULL } else h1
     .ok h2 (withGuards framelen (pcm flags is16 stereo len raw)) consumed
+
+/-- the stored bytes of a plain (non-ADPCM) stream sample of `bytelen` bytes when the read delivered
+    only `delivered` of them: **delivered bytes survive, the tail is zero** -/
+def shortRaw (f : Bytes) (bytelen delivered : Nat) : Bytes :=
+  build bytelen fun i => if i < delivered then nth f i else 0
+
+/-- closed-form `libxmp_load_sample` on a stream whose reads deliver only `limit` bytes although
+    `hio_size` promised `avail`: the header, `len'` and the loop are as for a complete read; a plain
+    sample is decoded from the delivered bytes followed by zeros ("truncated to the data actually
+    present"); an ADPCM sample whose table or packed data comes up short fails (`-1`, no PCM). -/
+def loadS (flags : Nat) (h : Hdr) (skip : Bool) (f : Option Bytes) (limit : Nat) (buffer : Bytes) : Result :=
+  let noload := fl flags SAMPLE_FLAG_NOLOAD
+  let isAdpcm := fl flags SAMPLE_FLAG_ADPCM
+  let avail := (f.getD []).length
+  if fl flags SAMPLE_FLAG_ADLIB ∨ h.len ≤ 0 then .skipped h 0
+  else if h.len > MAX_SAMPLE_SIZE ∨ skip then
+    .skipped h (if noload ∨ f.isNone then 0 else min h.len.toNat avail)
+  else if !noload ∧ (avail = 0 ∨ f.isNone ∨ (isAdpcm ∧ avail < 16)) then .skipped h 0
+  else
+    let is16 := sf h.flg XMP_SAMPLE_16BIT
+    let stereo := sf h.flg XMP_SAMPLE_STEREO
+    let framelen := frameLen is16 stereo
+    let need := h.len.toNat * framelen
+    let bytelen := if noload then need else effBytes isAdpcm framelen need avail
+    let len := bytelen / framelen
+    if !noload ∧ isAdpcm ∧ limit < 16 + (bytelen + 1) / 2 then .error
+    else
+      let delivered := min bytelen limit
+      let raw : Bytes :=
+        if noload then buffer.take bytelen
+        else if isAdpcm then adpcm bytelen ((f.getD []).take 16) ((f.getD []).drop 16)
+        else shortRaw (f.getD []) bytelen delivered
+      let consumed := if noload then 0 else if isAdpcm then 16 + (bytelen + 1) / 2 else delivered
+      let h1 := loop { h with len := (len : Int) }
+      let h2 := if fl flags SAMPLE_FLAG_FULLREP ∧ h1.lps = 0 ∧ h1.len > h1.lpe
+                then { h1 with flg := setf h1.flg XMP_SAMPLE_LOOP_FULL } else h1
+      .ok h2 (withGuards framelen (pcm flags is16 stereo len raw)) consumed
 
 end Spec
 end Xmp.Sample
